@@ -146,8 +146,7 @@ the sections — in this order, nothing else. -/
 theorem panelLine_text (cfg : Cfg) (cell : Option Cell) (pre : Option String) (st : St) (bg idx : Bool)
     (secs : List Item) (hne : secs ≠ []) :
     panelLine cfg cell pre ⟨idx, st, secs, bg⟩ =
-      .ok (gItems cfg (renderCell cfg.fl cfg.fr cfg.minW cell)
-            ++ (match pre with | some s => gItems cfg s.toList | none => []) ++ secs) := by
+      .ok (gItems cfg (renderCell cfg.fl cfg.fr cfg.minW cell) ++ preItems cfg pre ++ secs) := by
   have : secs.isEmpty = false := by cases secs <;> simp_all
   cases pre <;> simp [panelLine, paintLine, markerFor, this]
 
